@@ -13,6 +13,7 @@ int nondet_int(void);
 double nondet_double(void);
 _Bool nondet_bool(void);
 size_t nondet_size(void);
+uint32_t nondet_u32(void);
 /* ghost witnesses: never assigned by library code, hence universally quantified in every contract */
 extern H3Index h3v_w;
 extern H3Index h3v_w2;
